@@ -263,6 +263,16 @@ func runC19(c *fw.Ctx) {
 			catchTrace(li(canon.In(1), canon.In(2))),
 			li(sy("trace!"), li(sy("list"), li(sy("count"), li(sy("seq"), canon.St("line one\r\nline two\r\n"))), canon.St("a\r\nb"))),
 		}
+		// values whose comparison could be derived from where their form was read: functions written identically in two
+		// places, the same function twice, functions inside collections, a macro and its alias
+		cmpTrace := func(a, b *canon.Node) *canon.Node {
+			return li(sy("trace!"), li(sy("try"), li(sy("list"), canon.Ke("eq"), li(sy("="), a, b)), li(sy("catch"), sy("err"), canon.Ke("cannot-compare"))))
+		}
+		extras = append(extras,
+			li(sy("def"), sy("same-text-a"), li(sy("fn"), li(sy("p")), sy("p"))), li(sy("def"), sy("same-text-b"), li(sy("fn"), li(sy("p")), sy("p"))),
+			cmpTrace(sy("same-text-a"), sy("same-text-b")), cmpTrace(sy("same-text-a"), sy("same-text-a")), cmpTrace(canon.Ve(sy("same-text-a")), canon.Ve(sy("same-text-b"))),
+			cmpTrace(li(sy("fn"), li(sy("p")), sy("p")), li(sy("fn"), li(sy("p")), sy("p"))), cmpTrace(sy("two-params"), sy("same-text-a")),
+			cmpTrace(canon.Ma(map[string]*canon.Node{canon.Marker + "f": sy("same-text-a")}), canon.Ma(map[string]*canon.Node{canon.Marker + "f": sy("same-text-b")})))
 		if r.Intn(3) == 0 {
 			extras = extras[:1+r.Intn(len(extras))]
 		}
